@@ -19,6 +19,8 @@ RULE = (
 )
 
 IT_EXTRA = (
+    ("chain", ("self", ("slice", 0, 0))),
+    ("chain", ("self", ("sel", ("gt", ("ref", "a"), ("lit", 99)))), True),
     ("sel", ("in_range", ("ref", "a"), (3, 0, -1))),("chain", ("D0",)), ("chain", ("Eloose",)), ("chain", ("L",)), ("chain", ("L",), True))
 SQL_EXTRA = (
     ("join", ("K", ("proj", ("d",))), ("gt", ("ref", "d"), ("lit", 100)), False),
@@ -56,6 +58,8 @@ MULTI16 = (
     ("chain", ("DS",)),
     ("chain", ("L",)),
     ("chain", ("X",)),
+    ("chain", ("self", ("slice", 0, 0))),
+    ("chain", ("self", ("sel", ("gt", ("ref", "a"), ("lit", 99)))), True),
     ("join", ("K",), None, False),
     ("join", ("K",), ("plit", False), False),
 )
